@@ -150,6 +150,9 @@ def run_check(pid: str, tier: str, seed: int, jobs: int, replay: str | None = No
         mech = v.get("mechanism", "unclassified")
         if mech in known_by_mech:
             known_seen[mech] = known_seen.get(mech, 0) + 1
+            if os.environ.get("VERIF_SAVE_KNOWN") and known_seen[mech] == 1:
+                with open(VERIF / "out" / f"known-{pid}-{mech[:60].replace('/', '_').replace(':', '_')}.json", "w") as fh:
+                    json.dump(v, fh, indent=1, default=str)
         else:
             new_by_mech.setdefault(mech, []).append(v)
 
